@@ -94,13 +94,24 @@ func (c *Ctx) headOnlyRelease() {
 		}
 	}
 	c.R.Check(okW && len(hw) >= 1, ruleP9, "Ackqueue.head:written-only-by-removeHead-and-grow", c.P.Pos(rm.Pos()), "head is stored by: "+fnNames(hw), "head is stored by "+fnNames(hw)+": entries can leave the queue other than through the in-order release")
-	// who may call removeHead
+	// who may call removeHead: Acked, or a drain helper that only Acked calls
 	var callers []string
+	okCallers := true
 	for _, s := range c.P.Callers(rm) {
-		callers = append(callers, s.Parent().Name())
+		p := s.Parent()
+		callers = append(callers, p.Name())
+		if p != acked && !(c.onlyCalledFrom(p, acked) && recvNamed(p) == "Ackqueue") {
+			okCallers = false
+		}
 	}
 	sort.Strings(callers)
-	c.R.Check(len(callers) == 1 && callers[0] == acked.Name(), ruleP9, "removeHead:called-only-from-Acked", c.P.Pos(rm.Pos()), "removeHead is called only from Acked", "removeHead is called from "+strings.Join(callers, ",")+": entries are dropped outside the in-order release")
+	c.R.Check(okCallers && len(callers) >= 1, ruleP9, "removeHead:called-only-from-Acked", c.P.Pos(rm.Pos()), "removeHead is called only from Acked (or its drain helper)", "removeHead is called from "+strings.Join(callers, ",")+": entries are dropped outside the in-order release")
+	// the function hosting the drain loop
+	host := c.ackedDrainHost()
+	if host == nil {
+		host = acked
+	}
+	acked = host
 	// inside Acked: every slot read uses the head index
 	n := 0
 	bad := ""
@@ -257,7 +268,49 @@ func (c *Ctx) growRules() {
 				ind = ph
 			}
 		}
-		if ind == nil {
+		// range form: for i := range ring'[:tail]  (hidden index starts at -1, i = hidden+1, bound len(subject))
+		rangeForm := false
+		if ind != nil {
+			var next ssa.Value
+			startsM1 := false
+			for _, e := range ind.Edges {
+				if k, ok := e.(*ssa.Const); ok && k.Value != nil && k.Value.ExactString() == "-1" {
+					startsM1 = true
+				}
+				if bo, ok := e.(*ssa.BinOp); ok && bo.Op.String() == "+" && bo.X == ssa.Value(ind) {
+					if k, ok := bo.Y.(*ssa.Const); ok && k.Value != nil && k.Value.ExactString() == "1" {
+						next = bo
+					}
+				}
+			}
+			mv := ir.SeeThrough(mu.Value)
+			if cv, ok := mv.(*ssa.Convert); ok {
+				mv = ir.SeeThrough(cv.X)
+			}
+			if startsM1 && next != nil && mv == next {
+				if iff, ok := l.Header.Instrs[len(l.Header.Instrs)-1].(*ssa.If); ok {
+					if bo, ok := iff.Cond.(*ssa.BinOp); ok && bo.Op.String() == "<" && bo.X == next {
+						if lc, ok := bo.Y.(*ssa.Call); ok {
+							if bi, ok := lc.Common().Value.(*ssa.Builtin); ok && bi.Name() == "len" {
+								if sl, ok := ir.SeeThrough(lc.Common().Args[0]).(*ssa.Slice); ok && sl.High != nil && (isFieldLoad(sl.High, "tail") || isFieldLoad(sl.High, "count")) {
+									lowZero := sl.Low == nil
+									if k, ok := sl.Low.(*ssa.Const); ok && k.Value != nil && k.Value.ExactString() == "0" {
+										lowZero = true
+									}
+									base := ir.PathOf(sl.X)
+									if lowZero && (isRingAlias(base.Root) || len(base.Fields) > 0 && base.Fields[len(base.Fields)-1] == "ring") {
+										rangeForm = true
+									}
+								}
+							}
+						}
+					}
+				}
+			}
+		}
+		if rangeForm {
+			// i runs over [0, tail) of the new ring: nothing more to check about the loop variable
+		} else if ind == nil {
 			bad = append(bad, "no induction variable")
 		} else {
 			zero, step := false, false
@@ -433,6 +486,18 @@ func (c *Ctx) growUnrollOrder(fn *ssa.Function) {
 			if bo, ok := x.dstLow.(*ssa.BinOp); ok && bo.Op.String() == "-" && isFieldLoad(bo.X, "size") && isFieldLoad(bo.Y, "head") {
 				okOff = true
 			}
+			// or: the number of elements the copy of the oldest segment (to offset 0) returned
+			dl := x.dstLow
+			if cv, ok := dl.(*ssa.Convert); ok {
+				dl = cv.X
+			}
+			if first, ok := dl.(*ssa.Call); ok {
+				for _, y := range cps {
+					if y.call == first && y.srcLow != nil && isFieldLoad(y.srcLow, "head") && y.srcHigh == nil && isZero(y.dstLow) {
+						okOff = true
+					}
+				}
+			}
 			if !okOff {
 				bad = append(bad, "the wrapped segment ring[:tail] (the newest entries) is not copied behind the oldest segment (offset size-head) at "+c.P.InstrPos(x.call))
 			}
@@ -564,8 +629,8 @@ func (c *Ctx) occupancyByCount() {
 	if acked == nil || insert == nil || rm == nil {
 		return
 	}
-	// the release loop's guard
-	for _, l := range ir.Loops(acked) {
+	// the release loop's guard (the loop may live in a drain helper)
+	for _, l := range ir.Loops(c.ackedDrainHost()) {
 		iff, ok := l.Header.Instrs[len(l.Header.Instrs)-1].(*ssa.If)
 		if !ok {
 			continue
@@ -656,4 +721,32 @@ func appendedValue(call *ssa.Call) ssa.Value {
 		}
 	}
 	return nil
+}
+
+// ackedDrainHost: the function that contains the loop removing released entries (calls removeHead in a
+// loop): Acked itself, or a helper method of the queue that only Acked calls.
+func (c *Ctx) ackedDrainHost() *ssa.Function {
+	acked := c.P.Func("sessions", "Ackqueue", "Acked")
+	rm := c.P.Func("sessions", "Ackqueue", "removeHead")
+	if acked == nil || rm == nil {
+		return acked
+	}
+	cands := []*ssa.Function{acked}
+	for _, call := range ir.Calls(acked) {
+		if f := call.Common().StaticCallee(); f != nil && recvNamed(f) == "Ackqueue" && f != rm && c.onlyCalledFrom(f, acked) {
+			cands = append(cands, f)
+		}
+	}
+	for _, f := range cands {
+		for _, l := range ir.Loops(f) {
+			for b := range l.Blocks {
+				for _, in := range b.Instrs {
+					if call, ok := in.(*ssa.Call); ok && call.Common().StaticCallee() == rm {
+						return f
+					}
+				}
+			}
+		}
+	}
+	return acked
 }
